@@ -97,6 +97,7 @@ var jsStrReplacementTable = []string{
 	// in HTML attributes without further encoding.
 	'"':  `\u0022`,
 	'`':  `\u0060`,
+	'$':  `\u0024`, // so that ${ cannot start an interpolation inside a template literal (backticks)
 	'&':  `\u0026`,
 	'\'': `\u0027`,
 	'+':  `\u002b`,
